@@ -94,10 +94,28 @@ CLAIMED = {
         technique="Coq control-state invariant over the protocol LTS + scheduled-history correspondence",
     ),
     "C18": dict(
-        text="Coq theorems over a concrete list model of EVERY function of par_sort.rs (shift helpers, insertion sort, partial insertion sort, heapsort, partition, partition_equal, break_patterns with its xorshift, choose_pivot, recurse, par_quicksort; cancel flag = oracle nat->bool; rayon::join sequentialised) and of the worker comparator: the result is always a permutation (C18_perm_partial), sorted with flag false when the flag is never raised (C18_sorted_partial), `true` only if the flag was seen raised (C18_cancel_partial), no index out of range (C18_no_panic_partial), sorted permutations under a total order are unique hence thread-count independent (C18_unique, C18_schedule_independent_partial), the worker comparator is a strict total order on matches with distinct indices with placeholders last (C18_cmp_total); insertion sort, heapsort, partial insertion sort, partition_equal are proved sorted/permuting for any strict weak order. `_partial`: the block partition (partition_in_blocks) enters through its contract, which is validated on generated slices, not proved. One genuine defect found by the check and fixed (73be869): imbalanced partitions were not charged to the heapsort limit on the parallel path, so an adaptive adversary caused quadratic time and a stack overflow from ~16000 elements. Tie: exact equality of flag, final array and comparator-call count with the extracted model whenever the schedule is deterministic (never cancelled / cancelled at a given comparator call with 1 thread), observables otherwise; sorted/reversed/organ-pipe/few-keys/adversarial (McIlroy antiquicksort) inputs, 1-8 threads.",
+        text="Coq theorems over a concrete list model of EVERY function of par_sort.rs (shift helpers, insertion sort, partial insertion sort, heapsort, partition, partition_equal, break_patterns with its xorshift, choose_pivot, recurse, par_quicksort; cancel flag = oracle nat->bool; rayon::join sequentialised) and of the worker comparator: the result is always a permutation (C18_perm_partial), sorted with flag false when the flag is never raised (C18_sorted_partial), `true` only if the flag was seen raised (C18_cancel_partial), no index out of range (C18_no_panic_partial), sorted permutations under a total order are unique hence thread-count independent (C18_unique, C18_schedule_independent_partial), the worker comparator is a strict total order on matches with distinct indices with placeholders last (C18_cmp_total); insertion sort, heapsort, partial insertion sort, partition_equal are proved sorted/permuting for any strict weak order, and the block partition (partition_in_blocks, the BlockQuicksort cyclic-swap loop) is proved to satisfy its contract for every comparator (C18_pib_contract), so the UNCONDITIONAL theorems C18_perm / C18_sorted / C18_cancel / C18_no_panic / C18_schedule_independent hold for the executable model of the whole file (the `_partial` versions over an arbitrary contract-satisfying partition are kept). One genuine defect found by the check and fixed (73be869): imbalanced partitions were not charged to the heapsort limit on the parallel path, so an adaptive adversary caused quadratic time and a stack overflow from ~16000 elements. Tie: exact equality of flag, final array and comparator-call count with the extracted model whenever the schedule is deterministic (never cancelled / cancelled at a given comparator call with 1 thread), observables otherwise; sorted/reversed/organ-pipe/few-keys/adversarial (McIlroy antiquicksort) inputs, 1-8 threads.",
         design_ref="DESIGN.md section 6, C18",
-        note="Trusted: Coq kernel, extraction, harness; rayon::join = left then right on disjoint halves; contract of partition_in_blocks validated not proved; stack depth / running time outside the list model (the finding above was caught by the oracle on the implementation). Axioms: none (recursion on fuel).",
-        technique="Coq proof over a concrete list model with one contract + differential correspondence incl. adversarial inputs",
+        note="Trusted: Coq kernel, extraction, harness; rayon::join = left then right on disjoint halves; stack depth / running time outside the list model (the finding above was caught by the oracle on the implementation). Axioms: none (recursion on fuel).",
+        technique="Coq proof over a concrete list model of all of par_sort.rs + differential correspondence incl. adversarial inputs",
+    ),
+    "C12": dict(
+        text="Coq theorems over the protocol model (Model/Nucleo.v): restart(true) empties and re-targets the snapshot at once, restart(false) leaves it untouched, the new stream id is fresh (C12_restart); nothing but a tick or restart(true) ever changes the snapshot - in particular no injector activity on any stream (C12_snapshot_stable); a tick only ever installs a snapshot of the current stream (C12_pickup_current); every index in the snapshot is an initialised item of the snapshot's own stream, so the streams are never mixed and the snapshot stays safe to read (C12_no_mix), for every history and interleaving. Tie: model-guided random walks over the enabled events of the extracted model (5 styles incl. writers parked between reservation and publication, restart-heavy, zero-timeout ticks racing the end of the run), replayed on the real Nucleo by the scheduler; every observation (tick status, snapshot pattern/count/matches/item data, active_injectors, notify count, unchecked reads of uninitialised entries) compared with the model and checked by the property oracle.",
+        design_ref="DESIGN.md section 6, C12",
+        note="Trusted: Coq kernel, extraction, scheduler harness (UI thread, one pool thread and injector threads parked at the cfg(nucleo_verif) yield points); interleavings at yield-point granularity with the scan's view of the item stream over-approximated by a parameter; scores/lengths are a table computed by the real Pattern::score; rayon spawn, parking_lot mutex and Arc semantics. Axioms: none.",
+        technique="Coq inductive invariants over the protocol LTS + scheduled-history correspondence",
+    ),
+    "C19": dict(
+        text="Coq theorems over the protocol model with ghost fields recording the snapshot and the number of published items of the current stream when the tick began: changed = false implies the snapshot is identical to the one before the call (C19_unchanged); running = false implies every item of the current stream whose push had completed before the call is counted, the snapshot's pattern is the matcher's current pattern and its stream is the current one (C19_idle), for every history and interleaving. Tie: model-guided random walks over the enabled events of the extracted model (5 styles incl. writers parked between reservation and publication, restart-heavy, zero-timeout ticks racing the end of the run), replayed on the real Nucleo by the scheduler; every observation (tick status, snapshot pattern/count/matches/item data, active_injectors, notify count, unchecked reads of uninitialised entries) compared with the model and checked by the property oracle.",
+        design_ref="DESIGN.md section 6, C19",
+        note="Trusted: Coq kernel, extraction, scheduler harness (UI thread, one pool thread and injector threads parked at the cfg(nucleo_verif) yield points); interleavings at yield-point granularity with the scan's view of the item stream over-approximated by a parameter; scores/lengths are a table computed by the real Pattern::score; rayon spawn, parking_lot mutex and Arc semantics. Axioms: none.",
+        technique="Coq inductive invariants over the protocol LTS + scheduled-history correspondence",
+    ),
+    "C20": dict(
+        text="Coq theorem over the protocol model: whenever the UI thread is between API calls, active_injectors (strong count of the current stream minus the matcher's own references) equals the number of live injector handles of the current stream, and the usize subtraction never underflows (C20_count), for every history of injector/clone/drop/restart/edit/tick with the background run at any stage. Tie: model-guided random walks over the enabled events of the extracted model (5 styles incl. writers parked between reservation and publication, restart-heavy, zero-timeout ticks racing the end of the run), replayed on the real Nucleo by the scheduler; every observation (tick status, snapshot pattern/count/matches/item data, active_injectors, notify count, unchecked reads of uninitialised entries) compared with the model and checked by the property oracle.",
+        design_ref="DESIGN.md section 6, C20",
+        note="Trusted: Coq kernel, extraction, scheduler harness (UI thread, one pool thread and injector threads parked at the cfg(nucleo_verif) yield points); interleavings at yield-point granularity with the scan's view of the item stream over-approximated by a parameter; scores/lengths are a table computed by the real Pattern::score; rayon spawn, parking_lot mutex and Arc semantics. Axioms: none.",
+        technique="Coq bookkeeping invariant over the protocol LTS + scheduled-history correspondence",
     ),
 }
 PENDING_REASON = "not claimed yet: the Coq model, theorems and code tie for this property are still being built in this session (design in DESIGN.md section 6); no other technique is substituted"
